@@ -279,6 +279,28 @@ func genLegacy(t *Tracer, m *Meta, tier string, seed int64) {
 		}
 		m.class("keycount:multiple-of-64-edge")
 	}
+	// (2d) steps near the 16-bit capacity of the old step array (stored step = skipped
+	// half-bytes + 1 <= 65535) and around its signed 16-bit boundary
+	longRuns := []int{32766, 32767, 32768, 32769, 40001, 65533, 65534}
+	if quick {
+		longRuns = []int{32767, 32768, 32769, 65534}
+	}
+	for _, L := range longRuns {
+		common := strings.Repeat(string([]byte{byte(0x30 + r.Intn(64))}), L/2)
+		var keys []string
+		if L%2 == 0 {
+			keys = []string{common + "\x12", common + "\x87", common + "\x87\x01"}
+		} else {
+			keys = []string{common + "\x51", common + "\x5e"}
+		}
+		if r.Intn(2) == 0 {
+			keys = append([]string{"\x00"}, keys...)
+		}
+		for _, l := range []string{"v3-" + v3Versions[r.Intn(len(v3Versions))], "v3-" + v3Versions[r.Intn(len(v3Versions))]} {
+			run(keys, l, append(append([]string{}, keys...), common, "x"))
+		}
+		m.class("old-step:" + runClass(L))
+	}
 	// (3) degenerate: the empty key set and the single key in every layout
 	all := append([]string{}, v10...)
 	for _, v := range v3Versions {
